@@ -415,7 +415,12 @@ impl DeconstructedPat {
             PatKind::Binding(_ident) => Constructor::Wildcard(WildcardReason::VarPat),
             PatKind::Bool(b) => Constructor::Bool(*b),
             PatKind::Int(i) => Constructor::Int(*i),
-            PatKind::Float(f) => Constructor::Float(f.clone()),
+            // compare float literals by value: `1.0` and `1.00` are the same pattern
+            PatKind::Float(f) => Constructor::Float(
+                f.parse::<f64>()
+                    .map(|value| value.to_string())
+                    .unwrap_or_else(|_| f.clone()),
+            ),
             PatKind::Str(s) => Constructor::String(s.clone()),
             PatKind::Void => Constructor::Product,
             PatKind::Tuple(elems) => {
